@@ -451,6 +451,50 @@ def run(ctx):
         if mism:
             ctx.broken.append('correspondence:gen_params file / re-read vs model/Itp.v')
         reader_cases(ctx, wd)
+        log_entry_cases(ctx, wd, ctx.n(10, 80))
+
+
+def log_entry_cases(ctx, wd, n, extra=()):
+    """links / blocks that carry [ info ] / [ warning ] messages, with and without a link that removes an atom: mapping and
+    link application pass, so the file is in place and reads back as the molecule that was built -- whatever happens to
+    the messages afterwards"""
+    rng = ctx.rng
+    todo = list(extra)
+    for _ in range(n):
+        todo.append({'remove': rng.random() < 0.7, 'where': rng.choice(['link', 'block', 'both', 'none']), 'level': rng.choice(['info', 'warning']),
+                     'nres': rng.randint(2, 4), 'pre': rng.random() < 0.3})
+    for case in todo:
+        lines = ['[ moleculetype ]', 'AAA 1', '[ atoms ]', '1 P1 1 AAA A1 1 0.0 72', '2 P2 1 AAA A2 2 0.5 72', '3 H 1 AAA H4 3 0.0 1',
+                 '[ bonds ]', 'A1 A2 1 0.3 1000', 'A2 H4 1 0.11 2000']
+        if case['where'] in ('block', 'both'):
+            lines += [f"[ {case['level']} ]", 'This residue carries a capping hydrogen.']
+        lines += ['[ link ]', 'resname "AAA"']
+        if case['remove']:
+            lines += ['[ atoms ]', 'H4 {"replace": {"atomname": null}}']
+        lines += ['[ bonds ]', 'A2 +A1 1 0.35 1250']
+        if case['where'] in ('link', 'both'):
+            lines += [f"[ {case['level']} ]", 'The hydrogen that caps this residue is given up when the chain is extended.']
+        text = '\n'.join(lines) + '\n'
+        n_ = case['nres']
+        g = {'nres': n_, 'shape': 'path', 'resnames': ['AAA'] * n_, 'edges': [(i, i + 1) for i in range(n_ - 1)], 'r0': 1,
+             'keys': list(range(n_)), 'order': list(range(n_)), 'edge_order': list(range(n_ - 1)), 'flip': [False] * (n_ - 1)}
+        built = ffgen.run_pipeline(text, g)
+        ctx.case(('log_entries', json.dumps(case, sort_keys=True)), nontrivial='error' not in built, sample=case)
+        ctx.feature('log_entries_' + case['where'] + ('_with_atom_removal' if case['remove'] else ''))
+        if 'error' in built:
+            ctx.note(f"pipeline rejects a log-entry input: {built['error'][:200]}")
+            continue
+        write_inputs(wd, text, g)
+        out, handed, err = call_gen_params(wd, 'seq', g, preexisting=case['pre'])
+        rep = {'log_entries': case}
+        if err is not None:
+            ctx.feature('gen_params_raises_after_the_file_is_in_place' if out not in (None, 'stale content\n') else 'gen_params_raises_without_file')
+        if out is None or out == 'stale content\n':
+            ctx.violation('spec', f"mapping and link application succeed but gen_params wrote no file ({err or 'no exception'}); "
+                          f"messages on {case['where']}, atom removal {case['remove']}", rep)
+            continue
+        for msg, finding in judge(g, built, out, wd):
+            ctx.violation('spec', f"C11 fails on the implementation: {msg}", dict(rep, failure=msg), finding=finding)
 
 
 def reader_cases(ctx, wd):
@@ -519,6 +563,12 @@ def replay(ctx, data):
             print('replay: from_gmx_topfile', res_graph(top_mol), ' from_itp', res_graph(itp_mol))
         return 0
     print(json.dumps(data, indent=1, default=str)[:3000])
+    if 'log_entries' in data:
+        before = len(ctx.violations)
+        with systems.Workdir() as wd:
+            log_entry_cases(ctx, wd, 0, extra=[data['log_entries']])
+        print('replay:', ctx.violations[-1]['what'][:400] if len(ctx.violations) > before else 'file in place and reads back as built')
+        return 1 if len(ctx.violations) > before else 0
     if 'ff' in data and 'graph' in data:
         text = ff_text(data['ff'])
         g = data['graph']
